@@ -179,9 +179,13 @@ class LiquidationMonitor:
                     break
             want_dw = -pre['e0'] * abs(pre['q0']) / self.L - self.f * abs(pre['q0']) * bank
             dw = float(ex.wallet_balance) - pre['W0']
-            if not C.close(dw, want_dw, 1e-9, 1e-9 * abs(pre['e0'] * pre['q0'])):
+            # (the change is read off two wallet values: their own floating-point resolution bounds what can be seen -
+            # a wallet of 3e8 next to a position worth 30 resolves 6e-8)
+            w_res = 8 * 2.220446049250313e-16 * max(abs(pre['W0']), abs(float(ex.wallet_balance)))
+            if not C.close(dw, want_dw, 1e-9, 1e-9 * abs(pre['e0'] * pre['q0']) + w_res):
                 self.v(c, 'loss', f'C09|liquidation-loss-differs-from-initial-margin-plus-fee|{side}',
-                       {'wallet_change': dw, 'want': want_dw})
+                       {'wallet_change': dw, 'want': want_dw, 'wallet_before': pre['W0'], 'wallet_after': float(ex.wallet_balance),
+                        'entry': pre['e0'], 'qty': pre['q0'], 'bankruptcy': bank, 'leverage': self.L, 'fee_rate': self.f})
             c.count('c09_liquidations_checked')
         else:
             if created != 0 or n1 != pre['n0'] or float(p.qty) != pre['q0']:
